@@ -6,7 +6,7 @@ from common import Some, Nat, Raw, opt, coq
 LEVEL = "proof"
 COQ_IMPORTS = ["Tie.C07"]
 RULE = ("feature-rich references: 2D L-shapes, notched rectangles and irregular convex polygons (closed curves), 3D boxes and stepped prisms; "
-        "20-60 sample points; displacements inside the basin (up to 10% of the feature size and 15 degrees; recovery is demanded for up to 5% and 6 degrees) and, for the residual-honesty "
+        "20-60 sample points; displacements inside the basin (up to 10% of the size and 15 degrees; recovery is demanded when at the starting guess no sample point is farther than 5% of the smallest feature from where it was sampled - half of the basin cases are generated that deep) and, for the residual-honesty "
         "clause, also far outside it; initial guesses at the identity and within the basin; in 40% of the cases the scanned points are moved further by an arbitrary rigid motion (up to 100 feature sizes) that the guess undoes, so the guess is equally close to the answer but the points are far from the reference frame; both distance modes. distinct = distinct (tag, input)")
 TRUSTED_BASE = [
     "Coq 8.16.1 kernel and vm_compute",
@@ -18,6 +18,10 @@ ASSUMPTIONS = [
     "residual honesty is proved for every history of parameter updates (the solver is an arbitrary client)",
     "recovery to within 1e-5 of the feature size is required only for displacements inside the basin and is a per-case certificate",
 ]
+
+
+# smallest feature of each reference shape, in units of its size parameter
+FEATURE = {"lshape": 1.0, "notched": 0.8, "irregular": 0.8, "box": 2.0, "stepped": 1.0}
 
 
 def lshape(s):
@@ -41,13 +45,18 @@ def gen_curve(rng):
     basin = rng.random() < 0.75
     if basin:
         disp = [rng.uniform(-0.1, 0.1) * s, rng.uniform(-0.1, 0.1) * s, rng.uniform(-0.25, 0.25)]
-        if rng.random() < 0.7:      # well inside: recovery is demanded only here (the basin has no closed form)
+        if rng.random() < 0.7:      # moderately inside
             disp = [rng.uniform(-0.05, 0.05) * s, rng.uniform(-0.05, 0.05) * s, rng.uniform(-0.1, 0.1)]
         init = [0.0, 0.0, 0.0] if rng.random() < 0.6 else [rng.uniform(-0.05, 0.05) * s, rng.uniform(-0.05, 0.05) * s, rng.uniform(-0.1, 0.1)]
+        deep = rng.random() < 0.5
+        if deep:      # deep inside: no sample point starts farther than 5% of the smallest feature from its place; recovery is demanded here
+            f = FEATURE[kind] * s
+            disp = [rng.uniform(-0.012, 0.012) * f, rng.uniform(-0.012, 0.012) * f, rng.uniform(-0.006, 0.006) * f / s]
+            init = [0.0, 0.0, 0.0] if rng.random() < 0.5 else [rng.uniform(-0.006, 0.006) * f, rng.uniform(-0.006, 0.006) * f, rng.uniform(-0.003, 0.003) * f / s]
     else:
         disp = [rng.uniform(-3, 3) * s, rng.uniform(-3, 3) * s, rng.uniform(-3, 3)]
         init = [rng.uniform(-1, 1) * s, rng.uniform(-1, 1) * s, rng.uniform(-1, 1)]
-    c = {"k": "c07.curve", "ref": ref, "fs": fs, "disp": disp, "init": init, "basin": basin, "kind": kind, "size": s}
+    c = {"k": "c07.curve", "ref": ref, "fs": fs, "disp": disp, "init": init, "basin": basin, "deep": basin and deep, "kind": kind, "size": s}
     if rng.random() < 0.4:      # the scanned points sit far from the reference frame; the guess undoes that, so it is as close to the answer as before
         c["pre"] = [rng.uniform(-100, 100) * s, rng.uniform(-100, 100) * s, rng.uniform(-3, 3)]
     return c
@@ -87,11 +96,16 @@ def gen_mesh(rng):
         if rng.random() < 0.7:
             disp = [rng.uniform(-0.05, 0.05) * s for _ in range(3)] + aa(0.1)
         init = [0.0] * 6 if rng.random() < 0.6 else [rng.uniform(-0.05, 0.05) * s for _ in range(3)] + aa(0.08)
+        deep = rng.random() < 0.5
+        if deep:      # deep inside (see gen_curve)
+            f = FEATURE[kind] * s
+            disp = [rng.uniform(-0.01, 0.01) * f for _ in range(3)] + aa(0.005 * f / s)
+            init = [0.0] * 6 if rng.random() < 0.5 else [rng.uniform(-0.005, 0.005) * f for _ in range(3)] + aa(0.0025 * f / s)
     else:
         disp = [rng.uniform(-3, 3) * s for _ in range(3)] + aa(3.0)
         init = [rng.uniform(-1, 1) * s for _ in range(3)] + aa(1.0)
     c = {"k": "c07.mesh", "verts": verts, "faces": faces, "samples": samples, "disp": disp, "init": init, "mode": rng.choice(["point", "plane"]),
-         "basin": basin, "kind": kind, "size": s, "timeout_ms": 60000}
+         "basin": basin, "deep": basin and deep, "kind": kind, "size": s, "timeout_ms": 60000}
     if rng.random() < 0.4:
         c["pre"] = [rng.uniform(-100, 100) * s for _ in range(3)] + aa(3.0)
     return c
@@ -103,14 +117,14 @@ def corpus():
 
 
 def generate(rng, tier):
-    n = 60 if tier == "quick" else 800
+    n = 120 if tier == "quick" else 1600
     return [gen_curve(rng) for _ in range(n)] + [gen_mesh(rng) for _ in range(n // 2)]
 
 
 def tag(c, r):
     res = r.get("result", {})
     st = "err" if res.get("err") else "panic" if res.get("panic") else "ok"
-    return "%s:%s:%s:%s%s:%s" % (c["k"], c["kind"], c.get("mode", "-"), "basin" if c["basin"] else "far", "+pre" if "pre" in c else "", st)
+    return "%s:%s:%s:%s%s:%s" % (c["k"], c["kind"], c.get("mode", "-"), ("deep" if c.get("deep") else "basin") if c["basin"] else "far", "+pre" if "pre" in c else "", st)
 
 
 def T(p):
@@ -164,8 +178,9 @@ def oracle(c, r):
     if ss1 > ss0 * (1 + 1e-9) + 1e-18:
         yield ("align-descent", what + ": residual sum of squares %r at the result exceeds %r at the starting guess" % (ss1, ss0))
     # recovery inside the basin: returned transform composed with the displacement is the identity on the points
-    well_inside = c["basin"] and max(abs(x) for x in c["disp"][:len(c["disp"]) // 2 + (1 if k == "c07.curve" else 0)][: (2 if k == "c07.curve" else 3)]) <= 0.05 * s and \
-        (abs(c["disp"][2]) <= 0.1 if k == "c07.curve" else math.sqrt(sum(x * x for x in c["disp"][3:])) <= 0.1)
+    # the stated basin: at the starting guess no sample point is farther than 5% of the smallest feature from where it was sampled
+    start = max(math.dist(e["moved"], p) for e, p in zip(r["at_init"], r["points"]))
+    well_inside = c["basin"] and start <= 0.05 * FEATURE[c["kind"]] * s
     if well_inside:
         worst = max(math.dist(e["moved"], p) for e, p in zip(ev, r["points"]))
         if worst > 1e-5 * s:
